@@ -332,7 +332,27 @@ def source(op, xs, shape):
     if shape == "tail":             # tail position of a named procedure, result of a loop
         return "(c10-call (lambda (%s) (let loop ([i 0]) (if (< i 1) (loop (+ i 1)) (%s %s)))) %s)" % (
             " ".join(names), op, " ".join(names), " ".join(ls))
+    if shape in ("opcode", "opcode_nojit"):
+        # the operation sits in a function of a REQUIRED MODULE: there the arithmetic primitives compile to the
+        # ADD/SUB/MUL/DIV/NUMEQUAL/LT... opcodes (vm.rs handlers; native helpers of jit.rs when the JIT is on),
+        # whereas user code at top level calls the global primitive functions
+        return "(%s %s)" % (module_fn(op, len(xs)), " ".join(ls))
     raise ValueError(shape)
+
+
+def module_fn(op, k):
+    return "c10m/%s/%d" % (op, k)
+
+
+def module_text(pairs):
+    out = []
+    for op, k in sorted(pairs):
+        names = " ".join("a%d" % i for i in range(k))
+        # a first evaluation in a loop (register operands, tail loop), then the operation in tail position
+        out.append("(define (%s %s) (let loop ([i 0] [r #f]) (if (< i 2) (loop (+ i 1) (%s %s)) (%s %s))))"
+                   % (module_fn(op, k), names, op, names, op, names))
+    out.append("(provide %s)" % " ".join(module_fn(op, k) for op, k in sorted(pairs)))
+    return "\n".join(out) + "\n"
 
 
 PRELUDE = "(define (c10-call f . args) (apply f args))"
@@ -474,17 +494,33 @@ def run(ck):
     cases = list(CORPUS) + sweep + gen_cases(ck, n)
     ck.cov["boundary_sweep_cases"] = len(sweep)
     shapes_for = []
-    units = [PRELUDE]
+    # module holding one function per (operation, operand count): the "opcode" shapes
+    import os
+    pairs = {(op, len(xs)) for op, xs in cases if op != "string->number"}
+    mpath = os.path.join(ck.work, "c10mod.scm")
+    with open(mpath, "w") as fh:
+        fh.write(module_text(pairs))
+    prelude = PRELUDE + "\n;;;;\n(require \"%s\")" % mpath
+    units = [prelude]
     index = []
     for ci, (op, xs) in enumerate(cases):
         in_sweep = len(CORPUS) <= ci < len(CORPUS) + len(sweep)
         shapes = SHAPES if (ck.tier == "thorough" or ci < len(CORPUS)) else \
             (["apply", ("local", "literal", "tail")[ci % 3]] if in_sweep else [ck.rng.choice(SHAPES), "apply"])
+        shapes = list(shapes)
+        if op != "string->number" and (ck.tier == "thorough" or ci < len(CORPUS) or in_sweep or ci % 2 == 0):
+            shapes.append("opcode")
         for sh in dict.fromkeys(shapes):
             units.append(source(op, xs, sh))
             index.append((ci, sh))
     # implementation, in worker subprocesses (a panic is caught in-process; a crash kills the worker)
     impl = run_impl(ck, units)
+    # the opcode shape once more with the native tier switched off (vm.rs opcode handlers)
+    nojit = [(ci, k) for k, (ci, sh) in enumerate(index) if sh == "opcode"]
+    impl_nojit = run_impl(ck, [prelude] + [units[1 + k] for _, k in nojit], env={"STEEL_JIT": "false"})
+    for (ci, k), r in zip(nojit, impl_nojit[1:]):
+        index.append((ci, "opcode_nojit"))
+        impl.append(r)
     # model
     exprs = [model_expr(op, xs) for op, xs in cases]
     have = [i for i, e in enumerate(exprs) if e is not None]
@@ -533,17 +569,18 @@ def run(ck):
     ck.cov["rule"] = ("operand tuples from a boundary lattice (i32/i64/isize limits +-2, 2^62..2^64, 10^30, random 40-128 bit) "
                       "and rationals built from it; each evaluated through syntactic shapes %s; distinct = distinct "
                       "(operation, operand representation tags, result tag, shape); non-trivial = some operand is not a "
-                      "fixnum below 2^31" % SHAPES)
-    ck.cov["shape_histogram"] = {s: sum(1 for _, sh in index if sh == s) for s in SHAPES}
+                      "fixnum below 2^31; shapes opcode / opcode_nojit: the operation inside a function of a required "
+                      "module, where it compiles to an arithmetic opcode (native helper / vm.rs handler)" % SHAPES)
+    ck.cov["shape_histogram"] = {s: sum(1 for _, sh in index if sh == s) for s in SHAPES + ["opcode", "opcode_nojit"]}
     ck.cov["op_histogram"] = {o: sum(1 for op, _ in cases if op == o) for o in OPS}
     ck.cov["model_vs_impl_disagreements"] = disagree
     if not proved and not ck.violations:
         ck.unproved()
 
 
-def run_impl(ck, units):
+def run_impl(ck, units, env=None):
     """Evaluate units (units[0] is the prelude) on the real engine, one case per unit."""
-    res = ck.eval_cases([[u] for u in units[1:]], prelude=units[0])
+    res = ck.eval_cases([[u] for u in units[1:]], prelude=units[0], env=env)
     return [None] + [r[0] for r in res]
 
 
@@ -554,7 +591,15 @@ def replay(ck, path):
         print(json.dumps(obj, indent=1))
         return
     ck.harness_build(["evalsrv"])
-    impl = run_impl(ck, [PRELUDE, case["source"]])
+    prelude, env = PRELUDE, None
+    if str(case.get("shape", "")).startswith("opcode"):
+        import os
+        mpath = os.path.join(ck.work, "c10mod_replay.scm")
+        with open(mpath, "w") as fh:
+            fh.write(module_text({(case["op"], len(case["args"]))}))
+        prelude = PRELUDE + "\n;;;;\n(require \"%s\")" % mpath
+        env = {"STEEL_JIT": "false"} if case["shape"] == "opcode_nojit" else None
+    impl = run_impl(ck, [prelude, case["source"]], env=env)
     g = impl_str(impl[1])
     print("source:", case["source"])
     print("engine:", g, " exact:", case["exact"], " model:", case["model"])
